@@ -505,3 +505,66 @@ def run_cli_history_case(case: dict) -> dict:
     finally:
         shutil.rmtree(wd, ignore_errors=True)
     return out
+
+
+# ------------------------------------------------------------------------------------------
+# C01/C05 through the real command line
+# ------------------------------------------------------------------------------------------
+
+
+def run_cli_learn_case(case: dict) -> dict:
+    """One job set through `python -m tel2puml pv2puml` in a separate process, in one of the
+    three input modes (folder of job files, list of job files, one file per event with
+    -group-by-job); the emitted file is judged like a pv_to_puml_string result."""
+    from . import learn
+    rng = random.Random(case["rng_seed"])
+    jobs = [puml.job_from_json(j) for j in case["jobs"]]
+    name = case.get("puml_name", case["name"])
+    pv = gen.present(jobs, rng, name, case.get("variant", "all"))
+    wd = tempfile.mkdtemp(prefix="c01cli-", dir=case["work_dir"])
+    out: dict[str, Any] = {"status": "ok", "mode": case["mode"]}
+    try:
+        d = os.path.join(wd, "in")
+        os.makedirs(d)
+        files = []
+        if case["mode"] == "group-by-job":
+            flat = [e for j in pv for e in j]
+            rng.shuffle(flat)
+            for i, e in enumerate(flat):
+                files.append(os.path.join(d, f"e{i:04d}.json"))
+                with open(files[-1], "w") as fh:
+                    json.dump(e, fh)
+        else:
+            for i, j in enumerate(pv):
+                files.append(os.path.join(d, f"job{i:03d}.json"))
+                with open(files[-1], "w") as fh:
+                    json.dump(j, fh)
+        args = ["-o", os.path.join(wd, "out"), "pv2puml", "-jn", name]
+        if case["mode"] == "folder":
+            args += ["-fp", d]
+        else:
+            args += files
+        if case["mode"] == "group-by-job":
+            args += ["-group-by-job"]
+        try:
+            r = cli(args, wd, timeout=case.get("cli_timeout", 600))
+        except subprocess.TimeoutExpired:
+            out["status"] = "watchdog"
+            out["detail"] = "CLI exceeded the wall-clock watchdog"
+            return out
+        out["rc"] = r["rc"]
+        path = os.path.join(wd, "out", name.replace(" ", "_") + ".puml")
+        out["learn_ok"] = r["rc"] == 0 and os.path.exists(path)
+        out["steps"] = 0
+        out["n_jobs"] = len(jobs)
+        out["n_events"] = sum(len(j) for j in jobs)
+        if out["learn_ok"]:
+            out["puml"] = open(path).read()
+            out["judge"] = learn.judge_output(out["puml"], name, jobs, None, check_extra=False)
+        else:
+            out["exc_type"] = "CLIExitStatus"
+            out["exc"] = r["out"][-500:]
+            out["where"] = "cli"
+    finally:
+        shutil.rmtree(wd, ignore_errors=True)
+    return out
